@@ -256,6 +256,25 @@ func check(c Case) (kind, what string, nt bool) {
 			return "reader-dependent", fmt.Sprintf("header decoded from a bufio.Reader of %d bytes that had already delivered %d bytes of the stream differs from the one decoded at offset 0: %v / %v (header %s)", size, prefix, rerr4, rerr, c.Header), true
 		}
 	}
+	// ... and with other tags behind the same header: a multi-localised description where the reference profile has
+	// a v2 text description, and no tags at all - the header's fields are the header's
+	for vi, tags := range [][]build.ICCTag{
+		{{Sig: 0x64657363, Data: build.Mluc([]build.MlucRec{{Lang: [2]byte{'e', 'n'}, Country: [2]byte{'U', 'S'}, Text: "x"}}, nil, nil, 0), Share: -1}},
+		{{Sig: 0x63707274, Data: build.TextDesc("y"), Share: -1}, {Sig: 0x64657363, Data: build.Mluc([]build.MlucRec{{Lang: [2]byte{'d', 'e'}, Country: [2]byte{'D', 'E'}, Text: "z"}}, nil, nil, 0), Share: -1}},
+		nil,
+	} {
+		pb := build.ICC{Header: h, Tags: tags}
+		b, _ := pb.Bytes()
+		copy(b[0:4], h[0:4])
+		var p9 *icc.Profile
+		var rerr9 error
+		if pn, msg := ev.Guard(func() { p9, rerr9 = icc.NewProfileReader(bytes.NewReader(b)).ReadProfile() }); pn {
+			return "panic", msg, true
+		}
+		if (rerr == nil) != (rerr9 == nil) || (rerr == nil && !reflect.DeepEqual(p.Header, p9.Header)) {
+			return "tags-dependent", fmt.Sprintf("the same header decodes differently in a profile with other tags (variant %d): %v / %v (header %s)", vi, rerr9, rerr, c.Header), true
+		}
+	}
 	// ... and from a source that reports a transient error (one whose Temporary method says true: EINTR, EAGAIN, a
 	// timeout) once, in the middle of the header, and then carries on: the read may fail, but a header that IS
 	// returned must be the right one
